@@ -361,6 +361,21 @@ def run(ck):
     # unpack() - the codec must not clip or alter it (R11.1-R11.8, shared with C11)
     from . import c11
     c11.header_rules(ck, agg)
+    # the sibling FrameQueueFrag feeds re-assembled messages into the same storage: its cache discipline (R06.x, shared with C06)
+    from . import c06
+
+    class _NoSeq:
+        """the sequencing clause R06.2 (C06's known finding) says nothing about the queue's own contract; every other cache rule does"""
+        def __init__(self, a):
+            self.a = a
+
+        def add(self, rule, *rest, **kw):
+            if rule != "R06.2":
+                self.a.add(rule, *rest, **kw)
+
+        def __getattr__(self, k):
+            return getattr(self.a, k)
+    c06._core(ck, _NoSeq(agg))
     agg.flush()
     ck.floor("R12.1", "mutation sites and public methods examined", n1, 5)
     ck.floor("R12.4", "enqueue scenarios on the capacity grid", n2, 16)
